@@ -163,6 +163,29 @@ pub fn encode_table(rng: &mut Rng, cmp: &CmpKind, es: &[(Vec<u8>, Vec<u8>)], mut
         img.extend_from_slice(&physical(&data, ty));
         (off, data.len())
     };
+    // one table in five (filter-less or with a foreign filter, whose metaindex does not depend on block offsets)
+    // puts the metaindex block - and the foreign filter block - BEFORE the data blocks: nothing in the format says
+    // that meta blocks follow the data
+    let filter_early: Option<RefFilter> = if !mutate && rng.chance(1, 5) { Some(if rng.chance(1, 2) { RefFilter::None } else { RefFilter::Foreign }) } else { None };
+    let mut early_meta: Option<(usize, usize)> = None;
+    if let Some(f) = &filter_early {
+        let mut meta: Vec<(Vec<u8>, Vec<u8>)> = vec![];
+        if let RefFilter::Foreign = f {
+            let fb = vec![0u8, 0, 0, 0, 11];
+            let (off, size) = emit(rng, &mut img, &fb, false);
+            meta.push((b"filter.aaa.Foreign".to_vec(), handle(off, size)));
+        }
+        if rng.chance(1, 3) {
+            meta.push((b"a.extra".to_vec(), vec![1, 2, 3]));
+        }
+        meta.sort();
+        if *cmp == CmpKind::Reverse {
+            meta.reverse();
+        }
+        let mc = block_contents(rng, &meta, true);
+        early_meta = Some(emit(rng, &mut img, &mc, true));
+        desc.push("meta-first".into());
+    }
     // physical placement: usually in key order; one table in four places its data blocks in a shuffled order
     // (the format does not tie file order to key order)
     let mut order: Vec<usize> = (0..parts.len()).collect();
@@ -240,10 +263,13 @@ pub fn encode_table(rng: &mut Rng, cmp: &CmpKind, es: &[(Vec<u8>, Vec<u8>)], mut
     }
     desc.push(format!("blocks={}", parts.len()));
     // filter
-    let filter = match rng.below(4) {
-        0 => RefFilter::None,
-        1 => RefFilter::Foreign,
-        _ => RefFilter::Bloom(*rng.pick(&[4u32, 10, 10, 16]), rng.range(8, 14) as u32),
+    let filter = match &filter_early {
+        Some(f) => f.clone(),
+        None => match rng.below(4) {
+            0 => RefFilter::None,
+            1 => RefFilter::Foreign,
+            _ => RefFilter::Bloom(*rng.pick(&[4u32, 10, 10, 16]), rng.range(8, 14) as u32),
+        },
     };
     desc.push(format!("filter={:?}", filter));
     let mut meta: Vec<(Vec<u8>, Vec<u8>)> = vec![];
@@ -298,7 +324,10 @@ pub fn encode_table(rng: &mut Rng, cmp: &CmpKind, es: &[(Vec<u8>, Vec<u8>)], mut
     if mutate && rng.chance(1, 6) {
         damage(rng, &mut mc);
     }
-    let (moff, msize) = emit(rng, &mut img, &mc, true);
+    let (moff, msize) = match early_meta {
+        Some(m) => m,
+        None => emit(rng, &mut img, &mc, true),
+    };
     let mut ic = block_contents(rng, &index, true);
     if mutate && rng.chance(1, 6) {
         damage(rng, &mut ic);
